@@ -621,6 +621,10 @@ func setFromParamVal(buf []byte, pf *PFromBody) ErrorHdr {
 				if err == 0 && i < pf.vend {
 					d, err = pUInt64Val(buf[i+1 : pf.vend])
 				}
+				if err == ErrHdrNumTooBig {
+					pf.ParamErr = err
+					pf.ErrOffs = OffsT(pf.vstart)
+				}
 				if err == 0 {
 					if u > 1 || d > 999 || (u == 1 && d > 0) {
 						err = ErrHdrValBad
@@ -665,17 +669,19 @@ func setFromParamVal(buf []byte, pf *PFromBody) ErrorHdr {
 
 func pUInt64Val(b []byte) (n uint64, err ErrorHdr) {
 
-	if len(b) > 20 {
-		err = ErrHdrValTooLong
-		return
-	}
-
 	for _, c := range b {
 		if c < '0' || c > '9' {
 			err = ErrHdrValNotNumber
 			return
 		}
-		n = n*10 + uint64(c-'0')
+		d := uint64(c - '0')
+		if n > (^uint64(0)-d)/10 {
+			// overflow: saturate (but keep checking the rest)
+			n = ^uint64(0)
+			err = ErrHdrNumTooBig
+			continue
+		}
+		n = n*10 + d
 	}
 
 	return
